@@ -474,7 +474,8 @@ func (e *esdtNFTMultiTransfer) addNFTToDestination(
 	}
 
 	if currentESDTData.TokenMetaData != nil {
-		if !bytes.Equal(currentESDTData.TokenMetaData.Hash, esdtDataToTransfer.TokenMetaData.Hash) {
+		if esdtDataToTransfer.TokenMetaData == nil ||
+			!bytes.Equal(currentESDTData.TokenMetaData.Hash, esdtDataToTransfer.TokenMetaData.Hash) {
 			return ErrWrongNFTOnDestination
 		}
 	}
